@@ -35,6 +35,10 @@ CONSTANTS
  AdvKinds = {}
  TrackWire = TRUE
  UseIds = TRUE
+ NodeTeardown = TRUE
+ MayVanish = TRUE
+ Aead = TRUE
+ CheckIdent = TRUE
  AutoTimers = FALSE
 INVARIANT TraceAccepted
 INVARIANT DebugStop
@@ -68,7 +72,7 @@ PROFILES = {
     "isolation": dict(deliver=14, timer=2, send=5, ret=4, create=3, remove=0.5, inject=2, advcreate=3, destroy=3,
                       splice=2, plain=1, dup=1),
     "handshake": dict(deliver=10, timer=2, create=3, mangle=5, dup=2, lose=1, send=1),
-    "reclaim": dict(deliver=10, timer=8, send=2, ret=1, create=1.5, remove=1, lose=4, dup=1),
+    "reclaim": dict(deliver=10, timer=8, send=2, ret=1, create=1.5, remove=1, lose=4, dup=1, vanish=0.3, nodedown=0.7),
 }
 
 
@@ -116,6 +120,11 @@ def random_run(topology, seed, profile, steps, settings=None, max_circuits=3, go
             add("advcreate")
             add("destroy", bool(known))
             add("mangle", bool(created))
+            alive = [o for o in origins if w.nodes[o].sim_endpoint.is_open()]
+            add("vanish", bool(alive) and ncirc > 0)
+            joined = [(n, "relay", w.cid(rc)) for n in names for rc in w.ov[n].relay_from_to] + \
+                     [(n, "exit", w.cid(rc)) for n in names for rc in w.ov[n].exit_sockets]
+            add("nodedown", bool(joined))
             if not opts:
                 break
             tot = sum(wt for _, wt in opts)
@@ -179,6 +188,11 @@ def random_run(topology, seed, profile, steps, settings=None, max_circuits=3, go
                                     replay_seq=g.seq)
                 else:
                     w.forge_destroy(rng.choice(list(names) + ["adv"]), rng.choice(names), rng.choice(known))
+            elif name == "vanish":
+                w.vanish(rng.choice(alive))
+            elif name == "nodedown":
+                n, kind, c = rng.choice(joined)
+                (w.node_remove_relay if kind == "relay" else w.node_remove_exit)(n, c)
             elif name == "mangle":
                 w.mangle_answer(rng.choice(created).seq, rng.choice(["ident", "cid", "eph", "ephauth", "auth", "cands"]))
         return {"events": w.events, "topology": topology, "seed": seed, "profile": profile}, w
@@ -208,3 +222,79 @@ def validate(traces, topology, hdr, *, max_joined=100, max_early=8, create_guard
         last = r.error_trace[-1][1]
         where = (last.get("tid"), last.get("l"))
     return r.ok, r, where
+
+
+def _vdepth(L):
+    n = 0
+    for layer in L:
+        if not layer["ok"] or layer["k"].get("st") == "adv":
+            break
+        n += 1
+    return n
+
+
+def spec_projection(st):
+    """the spec state (parsed TLC state) in the shape OnionWorld.project() logs"""
+    out = {"circ": {}, "relay": {}, "exit": {}, "retryC": {}, "createdC": {}, "createC": {}, "pingC": {}}
+
+    def items(f):
+        if isinstance(f, tuple):
+            return list(enumerate(f, 1))
+        return list(f.items())
+    for n, f in items(st["circ"]):
+        out["circ"][n] = sorted(({"cid": c, "goal": v["goal"], "hops": [h["peer"] for h in v["hops"]], "unv": v["unv"]["peer"],
+                                  "closing": v["closing"], "early": v["early"]} for c, v in items(f)), key=lambda x: x["cid"])
+    for n, f in items(st["relay"]):
+        out["relay"][n] = sorted(({"cid": c, "to": v["to"], "next": v["next"], "dir": v["dir"], "early": v["early"]}
+                                  for c, v in items(f)), key=lambda x: x["cid"])
+    for n, f in items(st["exit"]):
+        out["exit"][n] = sorted(({"cid": c, "prev": v["prev"], "pk": v["pk"], "enabled": v["enabled"], "open": v["open"]}
+                                 for c, v in items(f)), key=lambda x: x["cid"])
+    for n, f in items(st["retryC"]):
+        out["retryC"][n] = sorted(({"cid": c, "ident": v["ident"], "tries": v["tries"], "alts": list(v["alts"]),
+                                    "kind": v["kind"]} for c, v in items(f)), key=lambda x: x["cid"])
+    for n, f in items(st["createdC"]):
+        out["createdC"][n] = sorted(c for c, _ in items(f))
+    for n, f in items(st["createC"]):
+        out["createC"][n] = sorted(({"ident": i, "to": v["to"], "from": v["from"], "peer": v["peer"], "toPeer": v["toPeer"]}
+                                    for i, v in items(f)), key=lambda x: x["ident"])
+    for n, f in items(st["pingC"]):
+        out["pingC"][n] = sorted(i for i, _ in items(f))
+    net = []
+    for d in st["net"]:
+        if d["t"] == "cell":
+            net.append({"id": d["id"], "src": d["src"], "dst": d["dst"], "t": "cell", "cid": d["cid"], "plain": d["plain"],
+                        "early": d["early"], "depth": _vdepth(d["L"])})
+        else:
+            net.append({"id": d["id"], "src": d["src"], "dst": d["dst"], "t": "destroy", "cid": d["cid"], "signer": d["signer"]})
+    out["net"] = sorted(net, key=lambda x: x["id"])
+    out["exitLog"] = sorted((dict(e) for e in st["hist"]["exitLog"]), key=lambda e: (e["n"], e["cid"], e["p"]))
+    out["origLog"] = sorted((dict(e) for e in st["hist"]["origLog"]), key=lambda e: (e["n"], e["cid"], e["p"]))
+    return out
+
+
+def explain(trace, topology, hdr, l, **kw):
+    """what Onion.tla expected after event l of the trace versus what the real nodes did (differences only)"""
+    import copy
+    tr2 = copy.deepcopy(trace)
+    tr2["events"] = tr2["events"][:l]
+    tr2["events"][-1]["nocheck"] = True
+    _ok, r2, _w = validate([tr2], topology, hdr, **kw)
+    if not r2.error_trace or r2.violated != "DebugStop":
+        return {"note": "the spec does not allow this action at all in the state before it (%s)" % r2.violated}
+    exp = spec_projection(r2.error_trace[-1][1])
+    real = trace["events"][l - 1]["post"]
+    diff = {}
+    for k, v in exp.items():
+        rv = real.get(k)
+        if isinstance(v, dict):
+            for n, ev in v.items():
+                rr = rv.get(n)
+                rr = sorted(rr, key=lambda x: (x.get("cid", 0), x.get("ident", 0)) if isinstance(x, dict) else x)
+                if ev != rr:
+                    diff["%s[%s]" % (k, n)] = {"spec": ev, "real": rr}
+        else:
+            rr = sorted(rv, key=lambda x: x.get("id", 0) if "id" in x else (x["n"], x["cid"], x["p"]))
+            if v != rr:
+                diff[k] = {"spec": v, "real": rr}
+    return diff
